@@ -437,16 +437,11 @@ def _r5(ctx, md):
         mode = c.args[1].value if len(c.args) > 1 and isinstance(c.args[1], ast.Constant) else None
         ctx.check(mode in ("r+", "a"), "R5", md, c, "HDF5Writer._open_resume", c, "existing HDF5 file reopened without truncation (mode r+)",
                   f"resume opens the HDF5 file with mode {mode!r}: earlier rows would be lost")
-    cursors = 0
-    so = orf.args.args[3].arg
-    for st in ast.walk(orf):
-        if isinstance(st, ast.Assign) and norm(st.targets[0]).startswith("self.i_"):
-            if so in names_in(st.value):
-                cursors += 1
-            elif not (isinstance(st.value, ast.Constant) and st.value.value == 0):
-                ctx.fail("R5", md, st, "HDF5Writer._open_resume", st, "resume cursor does not derive from step_offset (stale rows would not be overwritten)")
-    ctx.check(cursors >= 4, "R5", md, orf, "HDF5Writer._open_resume", "self.i_*", "all four HDF5 cursor families derive from step_offset (formula decided in C11-R2)",
-              f"only {cursors} HDF5 cursors derive from step_offset")
+    from .c11 import check_resume_cursors
+    from ..mdconf import ConfTaint
+    cursors = check_resume_cursors(ctx, md, ConfTaint(ctx.repo), "R5")
+    ctx.check(cursors >= 4, "R5", md, orf, "HDF5Writer._open_resume", "self.i_*", "all four HDF5 cursor families are repositioned from step_offset",
+              f"only {cursors} HDF5 cursors are repositioned on resume")
     # XYZ
     xo = md.func("XYZWriter.open")
     g = build_cfg(xo)
